@@ -86,7 +86,11 @@ type G struct {
 	Z    bool
 	R    int
 	Args []*PT
+	Lib  string // library relation name (K == "lib"): the REAL Go function is called
+	F    string // which function argument is passed to MapO: eq | succ | tab
 }
+
+func gLib(name, f string, args ...*PT) *G { return &G{K: "lib", Lib: name, F: f, Args: args} }
 
 func gFail() *G                     { return &G{K: "fail"} }
 func gSucc() *G                     { return &G{K: "succ"} }
@@ -136,6 +140,12 @@ func (g *G) coq() string {
 		return "(GZzz " + g.Gs[0].coq() + ")"
 	case "call":
 		return fmt.Sprintf("(GCall %d %s)", g.R, coqPTs(g.Args))
+	case "lib":
+		li := libRels[g.Lib]
+		if li.Recursive {
+			return fmt.Sprintf("(GCall %s_idx %s)", strings.ToLower(g.Lib), coqPTs(g.Args))
+		}
+		return fmt.Sprintf("(GLet %s %s_body)", coqPTs(g.Args), strings.ToLower(g.Lib))
 	case "conjplus":
 		return "(GConjPlus " + coqBool(g.Z) + " " + coqGoals(g.Gs) + ")"
 	case "disjplus":
@@ -174,6 +184,16 @@ func (g *G) show() string {
 			parts[i] = t.show()
 		}
 		return fmt.Sprintf("(%s %s)", relName(g.R), strings.Join(parts, " "))
+	case "lib":
+		parts := make([]string, len(g.Args))
+		for i, t := range g.Args {
+			parts[i] = t.show()
+		}
+		f := ""
+		if g.F != "" {
+			f = "[f=" + g.F + "]"
+		}
+		return fmt.Sprintf("(%s%s %s)", g.Lib, f, strings.Join(parts, " "))
 	case "conjplus", "disjplus":
 		z := "-nozzz"
 		if g.Z {
@@ -287,6 +307,12 @@ func build(g *G, env []*ast.SExpr) micro.Goal {
 			}
 			return build(rel.Body, benv)(s)
 		}
+	case "lib":
+		args := make([]*ast.SExpr, len(g.Args))
+		for i, a := range g.Args {
+			args[i] = a.close(env)
+		}
+		return libRels[g.Lib].Build(args, g.F)
 	case "conjplus":
 		gs := buildAll(g.Gs, env)
 		if g.Z {
@@ -544,6 +570,22 @@ func (rs *refSearch) solve(g *G, env []*ast.SExpr, st refState, depth int) []ref
 			args[len(g.Args)-1-i] = a.close(env)
 		}
 		return rs.solve(relLib[g.R].Body, args, st, depth-1)
+	case "reflet":
+		args := make([]*ast.SExpr, len(g.Args))
+		for i, a := range g.Args {
+			args[len(g.Args)-1-i] = a.close(env)
+		}
+		return rs.solve(g.Gs[0], args, st, depth)
+	case "lib":
+		if depth == 0 {
+			rs.truncated = true
+			return nil
+		}
+		args := make([]*ast.SExpr, len(g.Args))
+		for i, a := range g.Args {
+			args[len(g.Args)-1-i] = a.close(env)
+		}
+		return rs.solve(libRels[g.Lib].Ref(g.F), args, st, depth-1)
 	case "ifte":
 		rs.relational = false
 		c := rs.solve(g.Gs[0], env, st, depth)
